@@ -164,6 +164,7 @@ pub fn check(c: &Case, obs: &mut Obs) -> CheckResult {
         sched: Schedule::bytewise(),
         chunk: Some(1),
         ctor: Ctor::FromRead,
+        late_chunk: false,
     };
     if c.fail_end {
         feed.sched.fail_at = Some((c.data.len(), crate::source::ErrKind::Other));
